@@ -9,7 +9,9 @@
    containers, classes with string-named members loaded in declaration order, std::map<K, V> with K = std::string
    or an integer type loaded in mode m: SMap m ks e, std::array<T, N> / T[N]: SArr n e, std::vector<bool>: SVecBool,
    std::tuple<T...>: STuple ss; std::optional<T> / std::unique_ptr<T> / std::shared_ptr<T>: SOpt e (content TNil =
-   empty; ownership is not modelled); std::pair is the class with the members "key" and "value").
+   empty; ownership is not modelled); std::multimap<K, V>: SMMap ks e (content = what is saved: the array of
+   { "key", "value" } objects, ordered by key, equal keys in saved order); std::set<K> / std::multiset<K>: SSet multi ks
+   (content = the ordered array of the elements); std::pair is the class with the members "key" and "value").
    THE TARGET HOLDS A CONTENT i WHEN THE LOAD STARTS: load_tr s i v = (the scopes' answers as tokens, the result:
    LOk x = loaded, the target holds x; LNot = not loaded, the target still holds i; LReset x = Serialize returned
    false but the target now holds x (a wrapper that was reset to empty); LErr = exception; keep i r = what the target
@@ -333,6 +335,38 @@ Example T_C01_mp_fixed_example :
 Proof. exact ex_fix_loads. Qed.
 Print Assumptions T_C01_mp_fixed_example.
 
+(* ---- optional / unique_ptr / shared_ptr: class { o : optional<int32_t>; p : unique_ptr<class { a : int32_t }>; v : vector<optional<string>> } ---- *)
+(* round trip with empty and non-empty wrappers; and into a target holding { o = 5; p = { a = 1 }; v = [] }:
+   {} — the ABSENT members are reset to empty; { "o": "x", "p": nil } — a value of another kind under Skip and nil reset
+   as well; { "p": {} } — the pointee exists, is loaded into and keeps the member the document does not have; nil into
+   a root optional holding 5: LReset TNil *)
+Example T_C01_mp_wrapper_example :
+  (has_shape ex_opt_tree ex_opt_shape = true /\
+   exists b, save ex_opt_tree = Some b /\ load_bytes no_narrow id_widen skip_all ex_opt_shape b = LOk ex_opt_tree) /\
+  load_bytes_into no_narrow id_widen skip_all ex_opt_shape ex_opt_prior [0x80] =
+    LOk (TObj [(TStr [0x6F], TNil); (TStr [0x70], TNil); (TStr [0x76], TArr [])]) /\
+  load_bytes_into no_narrow id_widen skip_all ex_opt_shape ex_opt_prior [0x82; 0xA1; 0x6F; 0xA1; 0x78; 0xA1; 0x70; 0xC0] =
+    LOk (TObj [(TStr [0x6F], TNil); (TStr [0x70], TNil); (TStr [0x76], TArr [])]) /\
+  load_bytes_into no_narrow id_widen skip_all ex_opt_shape ex_opt_prior [0x81; 0xA1; 0x70; 0x80] =
+    LOk (TObj [(TStr [0x6F], TNil); (TStr [0x70], TObj [(TStr [0x61], TInt IS32 1)]); (TStr [0x76], TArr [])]) /\
+  load_bytes_into no_narrow id_widen skip_all (SOpt (SInt IS32)) (TInt IS32 5) [0xC0] = LReset TNil.
+Proof. exact (conj ex_opt_roundtrip ex_opt_loads). Qed.
+Print Assumptions T_C01_mp_wrapper_example.
+
+(* ---- std::multimap<int8_t, string>, std::set<string>, std::multiset<string> ---- *)
+(* the multimap { 1:"a", 1:"b", 2:"c" } round trips; from [ {2,"c"}, {1,"a"}, nil, {1,"b"} ] it is ordered by key, equal
+   keys keep the order of the document (571471d), the element that is not an object is not inserted.  A set from
+   [ "b", "a", "b", 5 ] under Skip: the element that does not load INSERTS the value-initialised string; the set drops the
+   second "b", the multiset keeps it *)
+Example T_C01_mp_multimap_set_example :
+  (has_shape ex_mm_tree ex_mm_shape = true /\
+   (exists b, save ex_mm_tree = Some b /\ load_bytes no_narrow id_widen skip_all ex_mm_shape b = LOk ex_mm_tree) /\
+   load_bytes no_narrow id_widen skip_all ex_mm_shape ex_mm_doc = LOk ex_mm_tree) /\
+  load_bytes no_narrow id_widen skip_all (SSet false KSStr) ex_set_doc = LOk (TArr [TStr []; TStr [0x61]; TStr [0x62]]) /\
+  load_bytes no_narrow id_widen skip_all (SSet true KSStr) ex_set_doc = LOk (TArr [TStr []; TStr [0x61]; TStr [0x62]; TStr [0x62]]).
+Proof. exact (conj ex_mm_loads ex_set_loads). Qed.
+Print Assumptions T_C01_mp_multimap_set_example.
+
 (* ---- std::tuple<int32_t, std::string, std::array<uint8_t, 2>> ---- *)
 Example T_C01_mp_tuple_example :
   (exists b, save ex_tup_tree = Some b /\ load_bytes no_narrow id_widen skip_all ex_tup_shape b = LOk ex_tup_tree) /\
@@ -349,7 +383,8 @@ Print Assumptions T_C01_mp_tuple_example.
    - std::map: archive keys of another class than the map's key type (text <-> number conversions, float / double /
      timestamp keys) and archive keys that convert to the same K: load_tr is total but claims nothing there,
      `modelled` (MpLoadModel.v) delimits it and the correspondence check skips those documents; read_off for maps
-     (the keys are not among the tokens); std::unordered_map (iteration order), multimap, set;
+     (the keys are not among the tokens) and for multimap / set (not done); std::unordered_map / unordered_set /
+     unordered_multimap (iteration order); sets and multimaps of other key types than std::string / integers (ordering);
    - targets that are NOT overwritten (classes, fixed-size arrays, tuples, maps in OnlyExistKeys / UpdateKeys): what a
      member / element / component / mapped value that is not loaded holds afterwards is its content before (load_tr
      says so; known finding F36 of C18, by design): no "populated = fresh" theorem there, T_C01_mp_load_save_into
